@@ -517,7 +517,7 @@ func init() {
 						if to > total {
 							to = total
 						}
-						l.Add("shapes", c08Params{Kind: "shapes", N: n, From: from, To: to, Combos: 30}, 0)
+						l.Add("shapes", c08Params{Kind: "shapes", N: n, From: from, To: to, Combos: 100}, 0)
 					}
 				}
 			} else {
@@ -527,7 +527,7 @@ func init() {
 					l.Add("shapes", c08Params{Kind: "shapes", N: n, From: from, To: from + 1, Combos: 10}, 0)
 				}
 			}
-			for i := 0; i < l.N(40, 400); i++ {
+			for i := 0; i < l.N(40, 3000); i++ {
 				l.Add("random", c08Params{Kind: "random", Combos: 10}, 0)
 			}
 			return l.Cases
